@@ -9,7 +9,7 @@ func strConst(s *StrV) string {
 	n, _ := constInt(s.len)
 	b := make([]byte, n)
 	for i := range b {
-		t := s.node.Read(Bin("bvadd", s.off, BV(64, int64(i))))
+		t := s.node.Read(Bin("bvadd", s.off, IX(int64(i))))
 		if t.IsConst() {
 			b[i] = byte(t.Uint())
 		} else {
@@ -28,19 +28,19 @@ func (in *Interp) builtin(name string, args []Value, c *ssa.CallCommon) Value {
 		case *StrV:
 			return a.len
 		case *SliceG:
-			return BV(64, int64(a.len))
+			return IX(int64(a.len))
 		case *MapV:
 			if a == nil {
-				return BV(64, 0)
+				return IX(0)
 			}
-			return BV(64, int64(len(a.e)))
+			return IX(int64(len(a.e)))
 		}
 	case "cap":
 		switch a := args[0].(type) {
 		case *SliceV:
 			return a.cap
 		case *SliceG:
-			return BV(64, int64(a.cap))
+			return IX(int64(a.cap))
 		}
 	case "copy":
 		d := args[0].(*SliceV)
@@ -78,10 +78,10 @@ func (in *Interp) builtin(name string, args []Value, c *ssa.CallCommon) Value {
 				d.obj.node = d.obj.node.Copy(Bin("bvadd", d.off, d.len), sn, so, sl)
 				return &SliceV{obj: d.obj, off: d.off, len: nl, cap: d.cap}
 			}
-			node := zeroArr(d.obj.ew).Copy(BV(64, 0), d.obj.node, d.off, d.len).Copy(d.len, sn, so, sl)
+			node := zeroArr(d.obj.ew).Copy(IX(0), d.obj.node, d.off, d.len).Copy(d.len, sn, so, sl)
 			in.allocs = append(in.allocs, nl)
 			// modelling choice: the new capacity equals the needed length (Go guarantees only >=)
-			return &SliceV{obj: &ArrObj{node: node, ew: d.obj.ew}, off: BV(64, 0), len: nl, cap: nl}
+			return &SliceV{obj: &ArrObj{node: node, ew: d.obj.ew}, off: IX(0), len: nl, cap: nl}
 		}
 	case "close":
 		ch, _ := args[0].(*ChanV)
